@@ -69,7 +69,9 @@ def do_OP_2SWAP(stack: Any) -> None:
 
 
 def do_OP_IFDUP(stack: Any) -> None:
-    if stack[-1]:
+    # a VM knows which byte strings are false (e.g. 00 or 80); a plain list uses truthiness
+    to_bool = getattr(stack, "bool_from_script_bytes", bool)
+    if to_bool(stack[-1]):
         stack.append(stack[-1])
 
 
